@@ -1,20 +1,12 @@
 import CTV.Props.C09
-import CTV.Lemmas.When
 /-!
 # C09, `fieldInfo.check` at full strength: all widths 1…8
 
-`check_spec` is false at `count = 8` for the unchanged tree (`1 << 64` wraps to 0: finding F2), which is how the
-proof attempt finds the defect; this module is part of the check only once F2 is no longer listed as `known`
-(see driver/props/c09.py).  Until then `C09.check_sound` (all widths) and `C09.check_spec_partial` (widths ≤ 7)
-stand and the harness exhibits the refused 8-byte values.
-
-So that the default `lake build` succeeds on every tree, the module is wrapped in `#when` on "the regenerated kernel
-accepts the value 0 in an 8-byte field" (CTV/Lemmas/When.lean): on the unchanged tree it elaborates to nothing;
-whenever it is an obligation the orchestrator demands every theorem named below from `#print axioms`.
+`check_spec` over the regenerated kernel `Gen.fieldInfoCheck`.  Before c593dc2 (finding F2: `1 << (8*count)` wrapped to
+0 for `count = 8`) the statement was false at width 8 and the proof attempt showed it; it is an ordinary obligation now.
 -/
 set_option linter.unusedSimpArgs false
 
-#when (Tls.Info.check ⟨8, 0, 0, true⟩ 0) =>
 namespace C09Width8
 open Tls CTV
 
@@ -33,4 +25,3 @@ example : Info.check ⟨8, 0, 0, true⟩ (2^64 - 1) = true ∧ Info.check ⟨8, 
 example : enc (.struct (.plain "E" (.enum ⟨8, 0, 0, true⟩) .nil)) (.struct [.num 5]) = .ok [0,0,0,0,0,0,0,5] := by rfl
 
 end C09Width8
-#end_when
